@@ -448,6 +448,77 @@ Definition verdict_extract_seq_C13 (a : list val) (out : val) : N :=
   | _ => VIOLATES
   end.
 
+(* ---------- several verdicts on one case ---------- *)
+Definition combine_verdicts (l : list N) : N :=
+  if existsb (N.eqb VIOLATES) l then VIOLATES else
+  match filter (fun c => 100 <=? c) l with
+  | c :: _ => c
+  | [] => if existsb (N.eqb HOLDS) l then HOLDS else NOT_JUDGED
+  end.
+
+(* ---------- split_seq: args [fields; targets; tids per build; memory seed] ----------
+   ONE Builder, several builds in a row.  In the model a build does not change the Builder
+   (BuilderModel.builder_builds): every build is [split] of the original field list.  Outcome: per
+   build [outcome of "split"; outcome of "extract" with complete replies (register targets) | []]. *)
+Fixpoint run_builds (fvs : val) (ms : val) (ts tidss : list val) : list val :=
+  match ts with
+  | [] => []
+  | t :: rest =>
+      let tids := hd (VL []) tidss in
+      let reg := match t with VI z => (4 <=? z)%Z | _ => false end in
+      VL [run_split [t; fvs; tids]; if reg then run_extract [t; fvs; tids; ms; VL []] else VL []]
+      :: run_builds fvs ms rest (tl tidss)
+  end.
+Definition run_split_seq (a : list val) : val :=
+  match a with
+  | [VL fvs; VL ts; VL tidss; VI ms] => v_ok [VL (run_builds (VL fvs) (VI ms) ts tidss)]
+  | _ => v_bad
+  end.
+Fixpoint verdicts_builds (p : N) (fvs ms : val) (ts tidss outs : list val) : list N :=
+  match ts, outs with
+  | t :: ts', VL [so; xo] :: outs' =>
+      let tids := hd (VL []) tidss in
+      (if p =? 6 then verdict_split_C06 [t; fvs; tids] so
+       else if p =? 5 then verdict_extract_C05 [t; fvs; tids; ms; VL []] xo
+       else NOT_JUDGED) :: verdicts_builds p fvs ms ts' (tl tidss) outs'
+  | [], [] => []
+  | _, _ => [VIOLATES]            (* the outcome does not have one element per build *)
+  end.
+Definition verdict_split_seq (p : N) (a : list val) (out : val) : N :=
+  if negb ((p =? 5) || (p =? 6)) then NOT_JUDGED else
+  match a, out with
+  | [VL fvs; VL ts; VL tidss; VI ms], VL [VI 0%Z; VL outs] =>
+      combine_verdicts (verdicts_builds p (VL fvs) (VI ms) ts tidss outs)
+  | [VL _; VL _; VL _; VI _], _ => VIOLATES
+  | _, _ => NOT_JUDGED
+  end.
+
+(* ---------- extract_client: args [target; fields; tids; memory seed; client kind] ----------
+   The requests go through a real client (TCP, RTU over a network connection, serial) to the
+   conforming device: the transport is transparent, so the model is that of "extract" with complete
+   replies -- for phase A (all requests sent first, extraction afterwards) and for phase B
+   (extraction right after each Do) alike.  Outcome [0; phase A; phase B]. *)
+Definition run_extract_client (a : list val) : val :=
+  match a with
+  | [t; fvs; tids; ms; VI _] =>
+      match run_extract [t; fvs; tids; ms; VL []] with
+      | VL [VI 0%Z; l] => v_ok [l; l]
+      | other => other
+      end
+  | _ => v_bad
+  end.
+Definition verdict_extract_client_C05 (a : list val) (out : val) : N :=
+  match a with
+  | [t; fvs; tids; ms; VI _] =>
+      let a' := [t; fvs; tids; ms; VL []] in
+      match out with
+      | VL [VI 0%Z; la; lb] =>
+          combine_verdicts [verdict_extract_C05 a' (VL [VI 0%Z; la]); verdict_extract_C05 a' (VL [VI 0%Z; lb])]
+      | _ => verdict_extract_C05 a' out
+      end
+  | _ => NOT_JUDGED
+  end.
+
 (* ---------- the table of this layer ---------- *)
 Open Scope string_scope.
 Open Scope N_scope.
@@ -459,5 +530,8 @@ Definition table_builder : list entry :=
                                  else if p =? 11 then verdict_extract_C11 a o else NOT_JUDGED |};
     {| e_name := "extract_resp"; e_run := run_extract_resp; e_verdict := no_verdict |};
     {| e_name := "extract_seq"; e_run := run_extract_seq;
-       e_verdict := fun p a o => if p =? 13 then verdict_extract_seq_C13 a o else NOT_JUDGED |}
+       e_verdict := fun p a o => if p =? 13 then verdict_extract_seq_C13 a o else NOT_JUDGED |};
+    {| e_name := "split_seq"; e_run := run_split_seq; e_verdict := verdict_split_seq |};
+    {| e_name := "extract_client"; e_run := run_extract_client;
+       e_verdict := fun p a o => if p =? 5 then verdict_extract_client_C05 a o else NOT_JUDGED |}
   ].
